@@ -160,6 +160,16 @@ def mixed_oracle(ctx, prop):
                 return rc_obs(await requirement_constraint_evaluation(expr))
 
             scen.append(("requirement_constraint_evaluation", expr, rc_coro, datas))
+            # the same expression handed over as ONE already parsed tree that all evaluations share (a caller parses once and evaluates many times);
+            # the reference for each is the evaluation of the string on its own
+            from ahbicht.expressions.condition_expression_parser import parse_condition_expression_to_tree
+
+            shared = parse_condition_expression_to_tree(expr)
+
+            async def rc_tree_coro(shared=shared):
+                return rc_obs(await requirement_constraint_evaluation(shared))
+
+            scen.append(("requirement_constraint_evaluation(one parsed tree shared by all evaluations)", expr, rc_tree_coro, datas, rc_coro))
         for expr in ("Muss [1] U [2][901] Soll [3] Kann [2][902]", "X ([1] O [2])[901] U [501]", "Muss [1] Kann"):
             tree = asyncio.run(resolve(expr))
             datas = [_body(rc=dict(zip("123", [rng.choice(states[:2]) for _ in "123"])), fc={"901": rng.random() < 0.5, "902": rng.random() < 0.5},
@@ -177,8 +187,8 @@ def mixed_oracle(ctx, prop):
                 return str(await resolve(expr, resolve_packages=True))
 
             scen.append(("parse_expression_including_unresolved_subexpressions(resolve_packages=True)", expr, pkg_coro, datas))
-        for entry, expr, coro, datas in scen:
-            alone = [_run_group(coro, datas, (i,))[0] for i in range(len(datas))]
+        for entry, expr, coro, datas, *ref in scen:
+            alone = [_run_group(ref[0] if ref else coro, datas, (i,))[0] for i in range(len(datas))]
             orders = [(0, 1), (1, 0), (0, 1, 2), (3, 2, 1, 0), tuple(range(len(datas)))]
             orders += [tuple(rng.sample(range(len(datas)), rng.randint(2, len(datas)))) for _ in range(2 if ctx.quick else 10)]
             for order in orders:
